@@ -6,8 +6,8 @@ EXHAUSTIVE
   * every hypergraph whose node set is {0..N-1}, 1 <= N <= 4, with every set of at most K distinct
     hyperedges of sizes 1..N (the nodes not covered stay as isolated nodes; the edgeless ones are degenerate).
       quick    : K = 4 for labels 0..N-1 unweighted, K = 3 for the five other variants below
-      thorough : K = 5 for labels 0..N-1 unweighted, K = 4 for the five other variants
-    variants = {labels 0..N-1, non-contiguous ints (20,5,30,10), strings ("n3","a","n10","B")} x
+      thorough : K = 5 for labels 0..N-1 unweighted, K = 4 for the five other variants; plus N = 5 with K = 2
+    variants = {labels 0..N-1, non-contiguous ints (20,5,30,10,40), strings ("n3","a","n10","B","zz")} x
                {unweighted, weighted (weights 0.5, 2, 3, 2.5, 7 by position)}.  The relabelling is not
     monotone, so the sorted order of the labels differs from the construction order.
   * every temporal hypergraph on the node set {0..N-1} given by at most 3 distinct (time, hyperedge) pairs,
@@ -553,8 +553,8 @@ def check_temporal(rec, spec):
 
 
 # ----------------------------------------------------------------------------------------------- generation
-INT_LABELS = [20, 5, 30, 10]
-STR_LABELS = ["n3", "a", "n10", "B"]
+INT_LABELS = [20, 5, 30, 10, 40]
+STR_LABELS = ["n3", "a", "n10", "B", "zz"]
 WEIGHTS = [0.5, 2, 3, 2.5, 7]
 
 
@@ -564,13 +564,14 @@ def _relabel(kind, N):
     return (INT_LABELS if kind == "ints" else STR_LABELS)[:N]
 
 
-def exhaustive_specs(max_edges_plain, max_edges_other, max_n=4):
-    for N in range(1, max_n + 1):
+def exhaustive_specs(caps):
+    """caps: {N: (K for labels 0..N-1 unweighted, K for the five other variants)}."""
+    for N in sorted(caps):
         universe = [c for k in range(1, N + 1) for c in itertools.combinations(range(N), k)]
         for kind in ("range", "ints", "str"):
             lab = _relabel(kind, N)
             for weighted in (False, True):
-                K = max_edges_plain if (kind == "range" and not weighted) else max_edges_other
+                K = caps[N][0] if (kind == "range" and not weighted) else caps[N][1]
                 for ne in range(0, min(K, len(universe)) + 1):
                     for es in itertools.combinations(universe, ne):
                         yield dict(kind="hg", weighted=weighted, pre_nodes=list(lab),
@@ -668,10 +669,11 @@ def _work(chunk):
 def run(ctx):
     _lib()  # import the tree under check once, before forking
     if ctx.quick:
-        k_plain, k_other, tn, n_rand, n_rand_t = 4, 3, 3, 300, 100
+        k_plain, k_other, caps, tn, n_rand, n_rand_t = 4, 3, {N: (4, 3) for N in (1, 2, 3, 4)}, 3, 300, 100
     else:
-        k_plain, k_other, tn, n_rand, n_rand_t = 5, 4, 4, 4000, 1200
-    ex = list(exhaustive_specs(k_plain, k_other))
+        k_plain, k_other, caps, tn, n_rand, n_rand_t = 5, 4, {N: (5, 4) for N in (1, 2, 3, 4)}, 4, 4000, 1200
+        caps[5] = (2, 2)
+    ex = list(exhaustive_specs(caps))
     ext = list(exhaustive_temporal_specs(tn))
     rnd = list(random_specs(ctx.rng, n_rand))
     rndt = list(random_temporal_specs(ctx.rng, n_rand_t))
@@ -683,7 +685,8 @@ def run(ctx):
 
     ctx.rule("exhaustive: every hypergraph with node set {0..N-1}, N<=4, and every set of <= K distinct hyperedges "
              f"(K={k_plain} for labels 0..N-1 unweighted, K={k_other} for the variants: labels 20,5,30,10 / strings, "
-             "weighted), uncovered nodes stay isolated; every temporal hypergraph given by <= 3 (time, hyperedge) pairs, "
+             "weighted), uncovered nodes stay isolated" + ("" if ctx.quick else "; the same with N=5 and <= 2 hyperedges") +
+             "; every temporal hypergraph given by <= 3 (time, hyperedge) pairs, "
              f"times in {{0,2}}, N<={tn}")
     ctx.rule("random: 3..7 nodes, 1..8 hyperedges of size 1..5, label kinds 0..N-1 / 1..N / random ints / strings / floats, "
              "isolated nodes, 40% weighted, random insertion order; random temporal hypergraphs on <= 6 nodes, times 0..4")
@@ -697,7 +700,8 @@ def run(ctx):
     ctx.assume("entries are compared with tolerance 1e-9 * max(1, |expected|)")
     ctx.assume("the abstract value of the input is what get_nodes / get_edges / get_weight / is_weighted return")
     ctx.exhaustive_parts.append(f"all hypergraphs on node set {{0..N-1}}, N<=4, <= {k_plain} hyperedges (labels 0..N-1, "
-                                f"unweighted) / <= {k_other} hyperedges (2 relabellings, weighted variants)")
+                                f"unweighted) / <= {k_other} hyperedges (2 relabellings, weighted variants)" +
+                                ("" if ctx.quick else "; N=5 with <= 2 hyperedges, all six variants"))
     ctx.exhaustive_parts.append(f"all temporal hypergraphs on node set {{0..N-1}}, N<={tn}, <= 3 (time,hyperedge) pairs, "
                                 "times {0,2}")
 
